@@ -78,7 +78,7 @@ type sub struct {
 }
 
 func run(c *core.Ctx) {
-	nBase := c.Scale(2400, 60000)
+	nBase := c.Scale(2400, 300000)
 	shapes := fc.LFShapes()
 	if c.Shard == 0 {
 		c.Count("configs_length_field_shapes", int64(len(shapes)))
